@@ -87,11 +87,14 @@ pub fn run(a: &Args) -> i32 {
                 if tables_available {
                     tables_checked += 1;
                 }
-                if tables_available && wire != values {
+                // (as SETS of arms: their order changes nothing on the wire)
+                let sorted = |v: &Vec<String>| { let mut v = v.clone(); v.sort(); v };
+                let sorted_pairs = |v: &Vec<(String, String)>| { let mut v = v.clone(); v.sort(); v };
+                if tables_available && sorted(&wire) != sorted(&values) {
                     rep.fail("enum-wire-names-differ-from-schema", json!({"enum": name, "schema_values": values, "deserialize_arms": wire, "schema": c.sdl, "options": c.opts.describe()}));
                 }
                 let inv: Vec<(String, String)> = de.iter().map(|(w, v)| (v.clone(), w.clone())).collect();
-                if tables_available && inv != ser {
+                if tables_available && sorted_pairs(&inv) != sorted_pairs(&ser) {
                     rep.fail("enum-tables-not-inverse", json!({"enum": name, "ser": ser, "de": de, "schema": c.sdl, "options": c.opts.describe()}));
                 }
                 // model check of the hypotheses of the Lean theorems on the extracted tables
